@@ -251,6 +251,115 @@ def run(ctx):
     ctx.count("types_with_skippable_fields", len(skip))
     ctx.count("types_with_required_fields", len(req))
     ctx.floor("derived types with skippable fields", len(skip), 50)
+    # ---- what may be omitted is what a missing field is read as ------------------------------------------------------------------------
+    ctx.rule("C18.defaults", "per derived Serialize/Deserialize pair: the values a `skip_serializing_if` predicate lets Serialize omit are, with multiplicity, the "
+                             "values Deserialize fills in for a missing field (`is_default` <-> Default::default(), `x == 50` <-> a default function returning 50, ...): "
+                             "otherwise a present value is silently replaced by another one on a round trip")
+    from collections import Counter
+    from . import panic_common as PC
+    dexv = D.Dex(w.lookup, adt_discr=w.adt_discr)
+    memo = {}
+
+    def fn_value(name):
+        """What a zero-argument default function returns / which value a one-argument predicate accepts, as a class label."""
+        if name in memo:
+            return memo[name]
+        out = None
+        if re.search(r" as core::default::Default>::default$", name):
+            out = "default"
+        elif name == "core::option::Option::<T>::is_none":
+            out = "none"
+        elif re.search(r"::(is_empty|is_undefined)$", name):
+            out = "default"
+        else:
+            f = w.lookup(name)
+            if f is not None and "body" in f:
+                try:
+                    ps = [p for p in dexv.paths(f, [D.sym("x")] * f["body"]["argc"]) if p.kind == "ret"]
+                except D.Unrecognised:
+                    ps = []
+                if len(ps) == 1 and not ps[0].conds:
+                    r = D.show(ps[0].ret)
+                    m = re.fullmatch(r"x==(.+)|(.+)==x", r)
+                    if f["body"]["argc"] == 0:
+                        out = r
+                    elif r == "x":
+                        out = "True"
+                    elif m:
+                        v = m.group(1) or m.group(2)
+                        if v == "Default::default()":
+                            out = "default"
+                        elif re.fullmatch(r"[\w:]+\(\)", v):
+                            cands = [k for k in w.fn_index if k.endswith("::" + v[:-2].split("::")[-1])]
+                            out = fn_value(cands[0]) if len(cands) == 1 else None
+                        else:
+                            out = v
+                elif len(ps) == 2 and f["body"]["argc"] == 1:
+                    # `self == &Self::default()` style methods (derived PartialEq against the default value)
+                    calls = [M.callee_name(c) for _, c in M.calls(f["body"])]
+                    if any(c.endswith("Default>::default") for c in calls) and any(c.endswith("::eq") for c in calls):
+                        out = "default"
+        if out is None and name.endswith("::is_default") and w.lookup(name) is not None and "body" in w.lookup(name):
+            # `T::is_default(&self)`: accepted as "the Default value" when it consults the same default-value functions as T's Default / new
+            ty_ = name[:-len("::is_default")]
+            mine = {M.callee_name(c) for _, c in M.calls(w.lookup(name)["body"]) if (w.lookup(M.callee_name(c)) or {}).get("body", {}).get("argc") == 0}
+            theirs = set()
+            for cand in (f"<{ty_} as core::default::Default>::default", f"{ty_}::new"):
+                g = w.lookup(cand)
+                if g is not None and "body" in g:
+                    theirs |= {M.callee_name(c) for _, c in M.calls(g["body"]) if (w.lookup(M.callee_name(c)) or {}).get("body", {}).get("argc") == 0}
+            theirs.discard(f"{ty_}::new")
+            if mine and mine == theirs:
+                out = "default"
+        memo[name] = out
+        return out
+
+    skipv, defv, unknown = {}, {}, {}
+    for fn in w.all_fns():
+        if "body" not in fn:
+            continue
+        p = fn["path"]
+        ms = re.search(r"<impl serde_core::ser::Serialize for (.*)>::serialize$", p)
+        md = re.search(r"<impl serde_core::de::Deserialize<'de> for (.*)>::deserialize::__Visitor.*::visit_map$", p)
+        if ms:
+            body = fn["body"]
+            cfg = M.Cfg(body)
+            dfs = PC.roots(body)
+            for bi, c in M.calls(body):
+                if M.callee_name(c).endswith("::skip_field"):
+                    gs = [g for g in PC.dominating_guards(cfg, body, dfs, bi) if g[0][0] == "call"]
+                    if not gs:
+                        continue
+                    name, truth = gs[-1][0][1], gs[-1][1]
+                    v = fn_value(name) if truth else None
+                    if v is None:
+                        unknown.setdefault(ms.group(1), set()).add(name)
+                    else:
+                        skipv.setdefault(ms.group(1), Counter())[v] += 1
+        if md:
+            for _, c in M.calls(fn["body"]):
+                n_ = M.callee_name(c)
+                if "missing_field" in n_ or n_.startswith(("serde_core::", "core::fmt", "core::result", "core::option", "<core::result", "<core::option")):
+                    continue
+                if re.search(r" as core::default::Default>::default$", n_) or (w.lookup(n_) is not None and (w.lookup(n_).get("body") or {}).get("argc") == 0):
+                    v = fn_value(n_)
+                    if v is not None:
+                        defv.setdefault(md.group(1), Counter())[v] += 1
+    n_types = 0
+    for ty in sorted(skipv):
+        if ty not in defv and ty not in req and not any(k != "none" for k in skipv[ty]):
+            continue
+        if not any(p_.endswith(f"for {ty}>::deserialize") or f"for {ty}>::deserialize::" in p_ for p_ in w.fn_index):
+            continue                                # Serialize-only type
+        n_types += 1
+        short = {c: n_ for c, n_ in skipv[ty].items() if c != "none" and n_ > defv.get(ty, Counter()).get(c, 0)}
+        if ty in unknown:
+            ctx.unrecognised("C18.defaults", f"C18.defaults:{ty}", "", f"skip predicate(s) {sorted(unknown[ty])} not evaluated")
+        else:
+            ctx.check(not short, "C18.defaults", f"C18.defaults:{ty}", "",
+                      bad_msg=f"{ty}: Serialize may omit {dict(skipv[ty])} (value -> number of fields) but a missing field is read as {dict(defv.get(ty, {}))}: "
+                              f"{ {c: n_ for c, n_ in short.items()} } field(s) come back with a different value (e.g. a level of 50 omitted and read back as 0)")
+    ctx.floor("types examined for skip/default agreement", n_types, 20)
     # ---- serde visitors accept transient strings -----------------------------------------------------------------------------------
     ctx.rule("C18.visitors", "every serde Visitor of the workspace that accepts a string (or bytes) in a specialised form (visit_borrowed_str, "
                              "visit_string / visit_borrowed_bytes, visit_byte_buf) also implements the general visit_str / visit_bytes: serde_json hands "
